@@ -497,6 +497,17 @@ class _Parser(barectf_config_parse_common._Parser):
                     ert_id_ft = self._feature_ft(er_node, type_id_ft_prop_name, ert_id_ft)
                     ert_ts_ft = self._feature_ft(er_node, 'timestamp-field-type', ert_ts_ft)
 
+            # the timestamp features need a clock
+            if def_clk_type is None:
+                for ts_ft, ts_prop_names in ((pkt_beginning_ts_ft, ('packet', 'beginning-timestamp-field-type')),
+                                             (pkt_end_ts_ft, ('packet', 'end-timestamp-field-type')),
+                                             (ert_ts_ft, ('event-record', 'timestamp-field-type'))):
+                    if ts_ft is not None:
+                        exc = _ConfigurationParseError(f'`{ts_prop_names[1]}` property',
+                                                       'Timestamp field type feature requires a default clock type (`$default-clock-type-name` property)')
+                        exc._append_ctx(f'`{ts_prop_names[0]}` property')
+                        _append_error_ctx(exc, '`$features` property')
+
             erts_prop_name = 'event-record-types'
             ert_count = len(dst_node[erts_prop_name])
 
